@@ -259,7 +259,7 @@ def check(run):
             if all(v.disc is None or c06.REPRS[s.int_repr][1] <= v.disc[1] <= c06.REPRS[s.int_repr][2] for v in s.variants) and \
                (s.int_repr is not None or all(v.kind == "unit" or v.disc is None for v in s.variants)):
                 specs.append(s)
-    units = [shards.Unit("u_" + s.name.lower(), glue(s), meta={"enum_src": s.render()}, sig=s.signature()) for s in specs]
+    units = [shards.Unit("u_" + s.name.lower(), glue(s), meta={"enum_src": s.render(), "bare_src": s.render_bare()}, sig=s.signature()) for s in specs]
     run.rule = RULE
     samples = standard_flow(run, units, deps["std"], vmon, profiles=("debug",), tag="c09")
     neg_probes(run, deps["std"])
